@@ -44,6 +44,42 @@ def _cvc5(solver: z3.Solver) -> tuple[str, str]:
 Z3_QUICK_RLIMIT = int(os.environ.get("PYVC_Z3_QUICK_RLIMIT", "400000"))
 
 
+def model_validates(s: z3.Solver) -> bool:
+    """z3's sequence solver sometimes answers `sat` with a model that does not satisfy the assertions (observed with
+    uninterpreted functions over sequences).  A `sat` answer only counts when its model evaluates every quantifier-free
+    assertion to true."""
+    try:
+        m = s.model()
+    except z3.Z3Exception:
+        return False
+    for f in s.assertions():
+        if z3.is_quantifier(f):
+            continue
+        try:
+            v = m.eval(f, model_completion=True)
+        except z3.Z3Exception:
+            return False
+        if z3.is_false(v):
+            return False
+        if not z3.is_true(v) and not _has_quantifier(f):
+            return False
+    return True
+
+
+def _has_quantifier(f) -> bool:
+    stack = [f]
+    seen = set()
+    while stack:
+        x = stack.pop()
+        if x.get_id() in seen:
+            continue
+        seen.add(x.get_id())
+        if z3.is_quantifier(x):
+            return True
+        stack.extend(x.children())
+    return False
+
+
 def smt2_of(solver: z3.Solver) -> str:
     return "(set-logic ALL)\n" + solver.to_smt2()
 
@@ -72,7 +108,7 @@ def discharge_quick(ob: Obligation) -> str | None:
         ob.status, ob.backend = "discharged", "z3"
         return None
     ob.status = "pending"
-    if r == z3.sat:
+    if r == z3.sat and model_validates(s):
         try:
             ob.detail = "z3 model: " + str(s.model())[:1500]
         except z3.Z3Exception:
@@ -102,6 +138,8 @@ def finish_pending(task: tuple[str, str, str]) -> dict:
     s.set("rlimit", Z3_RLIMIT)
     s.from_string(text)
     r = s.check()
+    if r == z3.sat and not model_validates(s):
+        r = z3.unknown
     dt = time.time() - t0
     if r == z3.unsat:
         if first == "sat":
@@ -146,6 +184,8 @@ def discharge(ob: Obligation, use_cvc5: bool = True, both: bool = False) -> Obli
             if first == "sat":
                 ob.status, ob.detail = "engine-disagreement", "z3 unsat, cvc5 sat"
         return ob
+    if r == z3.sat and not model_validates(s):
+        r = z3.unknown
     z3_answer = str(r)
     model_txt = ""
     if r == z3.sat:
